@@ -183,7 +183,7 @@ Lemma add_stream_inv : forall g c0 y id infl,
   (infl = true -> lookup id (tbl y) = None) ->
   (wok y = true -> forall k s, In (k, s) (tbl y) -> N.of_nat (nstreams y - s) < id_space g) ->
   XInv g c0 (y <| ctr := next_ctr (ctr y) |> <| nstreams := S (nstreams y) |>
-               <| xst := upd (xst y) (nstreams y) (mkXs id true false 0 0 infl) |>
+               <| xst := upd (xst y) (nstreams y) (mkXs id infl false 0 0 infl) |>
                <| tbl := if infl then (id, nstreams y) :: tbl y else tbl y |>).
 Proof.
   intros g c0 y id infl [I1 I2 I3 I4 I5 I6 I7] Hpos Hid Habs Hage.
@@ -192,8 +192,8 @@ Proof.
   - rewrite I1, next_ctr_closed. f_equal. fold n. lia.
   - intros s Hs. unfold upd. destruct (Nat.eqb_spec s n) as [->|Hne]; [exact Hid|]. apply I2. fold n. lia.
   - destruct infl; [|assumption]. cbn. constructor; [|assumption]. apply lookup_None. auto.
-  - intros k s H. assert (Hold : In (k, s) (tbl y) -> (s < S n)%nat /\ x_id (upd (xst y) n (mkXs id true false 0 0 infl) s) = k /\
-        x_recv (upd (xst y) n (mkXs id true false 0 0 infl) s) = 0%nat /\ x_inflight (upd (xst y) n (mkXs id true false 0 0 infl) s) = true).
+  - intros k s H. assert (Hold : In (k, s) (tbl y) -> (s < S n)%nat /\ x_id (upd (xst y) n (mkXs id infl false 0 0 infl) s) = k /\
+        x_recv (upd (xst y) n (mkXs id infl false 0 0 infl) s) = 0%nat /\ x_inflight (upd (xst y) n (mkXs id infl false 0 0 infl) s) = true).
     { intros H'. destruct (I4 k s H') as [A [B [C D]]]. fold n in A. unfold upd. destruct (Nat.eqb_spec s n); [lia|]. auto. }
     destruct infl; [|auto]. destruct H as [H|H]; [|auto]. inversion H; subst. unfold upd. rewrite Nat.eqb_refl. cbn. auto.
   - intros s Hs. unfold upd. destruct (Nat.eqb_spec s n); [cbn; lia|]. apply I5. fold n. lia.
